@@ -178,7 +178,7 @@ Record cfg := {
   fix_namedtuple   : bool;   (* named tuples are excluded before the peek *)
   fix_peek_default : bool;   (* peekable.peek is given a default *)
   fix_no_sig_hints : bool;   (* _make_fields_iterator does not take field names from the signature *)
-  fix_vars_nodict  : bool    (* the vars fallback tolerates instances without __dict__ *)
+  fix_vars_nodict  : bool    (* the vars fallback tolerates instances without __dict__ of classes that declare __slots__ *)
 }.
 Definition pinned : cfg :=
   {| fix_namedtuple := false; fix_peek_default := false; fix_no_sig_hints := false; fix_vars_nodict := false |}.
@@ -209,7 +209,8 @@ Definition is_iterable_of_pairs (c : cfg) (x : val) : res (bool * itr) :=
 (* ---------------------------------------------------------------------------------- *)
 (* serdes.get_items_iter / _make_fields_iterator: a function of the class alone        *)
 (* ---------------------------------------------------------------------------------- *)
-Inductive strategy := SItems | SNamedTuple | SEnumerate | SFields (names : list string) | SVars.
+(* SVars tolerant: the vars fallback; tolerant = the class declares __slots__, so an instance may lack __dict__ *)
+Inductive strategy := SItems | SNamedTuple | SEnumerate | SFields (names : list string) | SVars (tolerant : bool).
 
 Definition hints_of (c : cfg) (d : clsdesc) : list string :=   (* inspection.get_type_hints(tp[, exhaustive]) *)
   if fix_no_sig_hints c then c_hints d
@@ -221,7 +222,10 @@ Definition make_fields_iterator (c : cfg) (d : clsdesc) : strategy :=
                  | [], Some sl => public sl
                  | a, _ => a
                  end in
-  match attribs with [] => SVars | a => SFields a end.
+  match attribs with
+  | [] => SVars (fix_vars_nodict c && match c_slots d with Some _ => true | None => false end)
+  | a => SFields a
+  end.
 
 Definition get_items_iter (c : cfg) (cl : cls) : res strategy :=
   match cl with
@@ -259,9 +263,9 @@ Definition apply_strategy (c : cfg) (s : strategy) (it : itr) : res (list (val *
   | SItems, ItVal (VDict _ l) => (Ok l, 0)
   | SNamedTuple, ItVal (VNamed f l) => (Ok (combine (map VStr f) l), 0)     (* zip(val._fields, val) *)
   | SFields names, ItVal x => (fields_items x names, 0)
-  | SVars, ItVal (VObj _ _ (Some d) _) => (Ok (str_items (public_items d)), 0)
-  | SVars, ItVal (VObj _ _ None _) =>
-      (if fix_vars_nodict c then Ok [] else Raise EType, 0)                 (* vars() needs __dict__ *)
+  | SVars _, ItVal (VObj _ _ (Some d) _) => (Ok (str_items (public_items d)), 0)
+  | SVars tolerant, ItVal (VObj _ _ None _) =>
+      (if tolerant then Ok [] else Raise EType, 0)                          (* vars() needs __dict__ *)
   | _, _ => (Unmodelled, 0)
   end.
 
@@ -348,6 +352,8 @@ Definition wf_obj (x : val) : bool :=
   | VObj d sv dict ca =>
     let pub_slots := public (match c_slots d with Some sl => sl | None => [] end) in
     let pub_vars := public_items (dict_items dict) in
+    (* only an instance of a class that declares __slots__ can be without __dict__ *)
+    match dict, c_slots d with None, None => false | _, _ => true end &&
     match c_flavour d with
     | FDataclass =>
         c_dataclass d && forallb (has_attr x) (public (c_dc_fields d)) &&
